@@ -648,7 +648,8 @@ def optimize(*args, traverse=True, **kwargs):
     if not collections:
         return args
 
-    from dask._expr import CompositeExpr, _ExprSequence
+    from dask._collections import new_collection
+    from dask._expr import CompositeExpr, HLGExpr, _ExprSequence
 
     dsk = collections_to_expr(collections)
     collection_exprs = list(dsk.operands) if isinstance(dsk, _ExprSequence) else [dsk]
@@ -658,6 +659,25 @@ def optimize(*args, traverse=True, **kwargs):
             f"got {len(collection_exprs)} expressions for {len(collections)} "
             "collections"
         )
+
+    # Collections that are natively backed by an expression (e.g. dask.dataframe)
+    # are rebuilt from their optimized expression. The materialized graph can't
+    # be handed to their ``__dask_postpersist__`` since this protocol expects a
+    # mapping that holds nothing but the output keys of the collection.
+    native = [
+        i
+        for i, expr in enumerate(collection_exprs)
+        if not isinstance(expr, (HLGExpr, CompositeExpr))
+    ]
+    if native:
+        optimized = _ExprSequence(*(collection_exprs[i] for i in native)).optimize()
+        results = dict(zip(native, map(new_collection, optimized.operands), strict=True))
+        rest = [i for i in range(len(collections)) if i not in results]
+        if rest:
+            results.update(
+                zip(rest, optimize(*(collections[i] for i in rest), traverse=False))
+            )
+        return repack([results[i] for i in range(len(collections))])
 
     if any(isinstance(expr, CompositeExpr) for expr in collection_exprs):
         dsk = dsk.optimize()
